@@ -20,7 +20,7 @@ ASSUMPTIONS = [
     'handler tables are read through the internal names _handlers/_globals/_tasks (inconclusive if they disappear)',
     'a generator handler that yields None right after catching TimeoutError is not generated',
 ]
-REQUIRED = ['handler_suspended_by_sleep', 'caller_fired_an_event_after_being_resumed_that_outlives_its_handlers', 'namesake_of_an_event_awaited_by_name_called_meanwhile', 'awaited_event_fired_to_two_channels', 'awaited_by_name_while_fired_to_two_channels', 'several_handlers_waiting_for_one_event_instance', 'callee_on_explicit_channel', 'callee_with_success_channels', 'falsy_value_after_call', 'call_by_object', 'wait_by_object', 'wait_by_name', 'nested_call', 'sequential_calls', 'callee_raises_plain',
+REQUIRED = ['generator_handler_flushes_the_queue_itself', 'handler_suspended_by_sleep', 'caller_fired_an_event_after_being_resumed_that_outlives_its_handlers', 'namesake_of_an_event_awaited_by_name_called_meanwhile', 'awaited_event_fired_to_two_channels', 'awaited_by_name_while_fired_to_two_channels', 'several_handlers_waiting_for_one_event_instance', 'callee_on_explicit_channel', 'callee_with_success_channels', 'falsy_value_after_call', 'call_by_object', 'wait_by_object', 'wait_by_name', 'nested_call', 'sequential_calls', 'callee_raises_plain',
             'callee_generator_raises_first_step', 'callee_generator_raises_after_yield', 'callee_multi_handler', 'timeout_expired',
             'timeout_not_expired', 'timeout_zero', 'roots_in_flight_2plus', 'same_event_type_called_concurrently']
 REQUIRED_OBLIGATIONS = ['RESUME_ONCE', 'RESULT', 'AFTER_CALLEE', 'TIMEOUT_NOT_EARLY', 'CALLER_FEEDBACK', 'CALLER_VALUE', 'RESIDUE']
@@ -163,6 +163,8 @@ def evaluate(case, w, norm, before, after, comps):
         marks.add('callee_with_success_channels')
     if any(a[0] == 'sleep' for h in case['handlers'] for a in h['body']):
         marks.add('handler_suspended_by_sleep')
+    if any(a[0] == 'flush' for h in case['handlers'] if h['gen'] for a in h['body']):
+        marks.add('generator_handler_flushes_the_queue_itself')
     for h in case['handlers']:
         b_ = h['body']
         if any(a[0] == 'yieldlit' and i > 0 and b_[i - 1][0] in ('call', 'wait', 'waitname') for i, a in enumerate(b_)):
@@ -310,6 +312,10 @@ def corpus():
         HD(2, 'b', [['sleep', 0], ['yield', 'b1'], ['sleep', 0], ['ret', 'b2']], gen=True), HD(3, 'b', [['ret', 'b3']], prio=1),
         HD(4, 'c', [['sleep', 0], ['sleep', 0], ['raise']], gen=True), HD(5, 'c', [['sleep', 0]], gen=True, prio=1)],
         'fires': [E('a', flags=SF), E('a', flags=SF)]})
+    cs.append({'name': 'flushing-handlers', 'handlers': [
+        HD(1, 'a', [['fire', E('long')], ['flush'], ['call', E('b')], ['flush'], ['fire', E('long')], ['wait', E('c')], ['ret', 'end']], gen=True),
+        HD(2, 'b', [['flush'], ['yield', 'b1'], ['fire', E('c')], ['flush'], ['ret', 'b2']], gen=True), HD(3, 'c', [['flush'], ['ret', 'c']]),
+        HD(9, 'long', [['yield', None]] * 5 + [['ret', 'L']], gen=True)], 'fires': [E('a', flags=SF), E('a', flags=SF)]})
     cs.append({'name': 'sleeping-callee-times-out', 'handlers': [
         HD(1, 'a', [['call', E('long'), {'timeout': 2}], ['yield', None], ['sleep', 0], ['call', E('b')], ['ret', 'end']], gen=True),
         HD(2, 'long', [['sleep', 0]] * 7 + [['ret', 'L']], gen=True), HD(3, 'b', [['sleep', 0], ['ret', 'b']], gen=True)],
@@ -399,7 +405,7 @@ def gen_case(rng):
                 # `yield sleep(0)`: suspended until the next iteration by the other coroutine primitive.  (Never as the very next thing after
                 # a call()/wait(): there the tree records the Sleep object as a result and does not sleep - sleep() is outside this
                 # property's quantifier, see DESIGN 8.19 - so a bare yield comes in between.)
-                prev = [a for a in body if a[0] != 'fire']      # (fire is no suspension point)
+                prev = [a for a in body if a[0] not in ('fire', 'flush')]      # (neither is a suspension point)
                 if prev and prev[-1][0] in ('call', 'wait', 'waitname'):
                     body.append(['yield', None])
                 body.append(['sleep', 0])
@@ -407,6 +413,8 @@ def gen_case(rng):
                 body.append(['yieldlit', rng.choice([0, False, '', 0.0])])   # falsy but non-None results are results
             elif r < 0.8 and lv + 1 < nlev:
                 body.append(['fire', callee_spec(lv)])
+            elif r < 0.84:
+                body.append(['flush'])      # a handler may flush the queue itself, also between two calls
         r = rng.random()
         if r < 0.15:
             body.insert(rng.randint(0, len(body)), ['raise'])
